@@ -1,9 +1,181 @@
-"""C03 - contracts under construction; the bounded stand-in is wired so that seeded changes can be evaluated."""
+"""C03 - competition and rollup keep exactly the best PSM per spectrum / per entity (DESIGN.md 4.C03).
+
+Deductive core: the de-duplication loop of mokapot.confidence.assign_confidence (block contract).  The loop scans
+ONE stream of rows (the merged, score-sorted file iterator; its order is C14's postcondition) and, per level,
+writes the rows whose level key has not been seen before.  Proved for every stream, every list of levels that
+starts with "psms", every chunk size and both settings of the de-duplication switch:
+
+  * per level the writer receives, in stream order, exactly the rows at the logged stream positions ghost_em[L]
+    (strictly increasing; every written row IS a row of the stream - identifier, peptide, proteins and score of
+    one and the same input PSM as far as the row object goes);
+  * no two written rows of a level share the level key (the key is a function HK of the row and of the level's
+    hash columns);
+  * every candidate row (every row at the PSM level; at a higher level every row retained at the PSM level) is
+    represented by a written row with the same key that stands NOT LATER in the stream - with the stream in
+    non-increasing score order this is "a highest-scoring one";
+  * higher levels only hold rows retained at the PSM level; with de-duplication off every row is written at the
+    PSM level.
+"""
 from pyvc.spec import Contract, Loop, Lemma, Ghost
 
 PROPERTY = "C03"
 LEVEL = "other"
-EXPLANATION = "bounded stand-in only so far"
-ASSUMPTIONS = []
-CONTRACTS = []
+EXPLANATION = (
+    "Deductive: the first-seen-wins de-duplication loop of assign_confidence over an abstract row stream with a "
+    "ghost emission log per level (positions written, key -> first position), including the chunked flushing "
+    "into the per-level writers and the final flush.  Not within reach (bounded only): the per-chunk sort and "
+    "merge that produce the stream (C14 covers the merge), the q-value/PEP columns and the target/decoy split "
+    "of LinearConfidence (pandas), several collections, the stand-alone rollup tool.")
+ASSUMPTIONS = [
+    "the level list has no duplicates and none of the rollup levels is called 'psms' (level names are derived from "
+    "distinct user-supplied level column names); levels[0] == 'psms' IS proved from the construction of the list",
+    "TabularDataWriter.from_suffix returns a distinct writer object per level; a writer's content (ghost sink) "
+    "changes only through append_data, which appends the rows in order",
+    "get_dataframe_from_records(records, ...) holds the records as rows, in order (pandas from_records + rename; "
+    "the column mapping itself is bounded-only)",
+    "row.get(column) and str(list) are functions of their arguments; the hash string of a row at a level is "
+    "HK(row, hash columns of the level)",
+    "the row stream is a fixed sequence with a cursor (iterator protocol)",
+]
+
+R = "sorted_file_iterator.items"
+KK = "(P0 + _k0)"          # stream position of the row being processed / number of rows consumed (+P0)
+
+
+def KEY(L, j):
+    return "HK(%s[%s], level_hash_columns[%s])" % (R, j, L)
+
+
+def DD(L):
+    return "(%s != 'psms' or deduplication)" % L
+
+
+def CAND(L, j):
+    return "(%s == 'psms' or ghost_inE['psms'][%s])" % (L, j)
+
+
+def level_facts(K, sink_complete=None):
+    """The per-level invariant at 'K rows consumed' for the level L = levels[li] (K may depend on li).
+    sink_complete: None -> sink + batch == emitted rows; else a condition under which the batch is flushed."""
+    L = "levels[li]"
+    S = "ghost_sink[handles[%s]]" % L
+    E = "ghost_em[%s]" % L
+    out = [
+        "%s in seen_level_entities and %s in batches and %s in batch_counts" % (L, L, L),
+        # what reached the writer, followed by the pending batch, is the stream rows at the logged positions
+        "len(%s) + len(batches[%s]) == len(%s)" % (S, L, E),
+        "all(%s[q] == %s[%s[q]] for q in range(len(%s)))" % (S, R, E, S),
+        "all(batches[%s][q] == %s[%s[len(%s) + q]] for q in range(len(batches[%s])))" % (L, R, E, S, L),
+        # the log is strictly increasing and within the consumed part of the stream
+        "all(%s[q] < %s[q + 1] for q in range(len(%s) - 1))" % (E, E, E),
+        "all(ghost_inE[%s][%s[q]] and ghost_posE[%s][%s[q]] == q for q in range(len(%s)))" % (L, E, L, E, E),
+        "forall(lambda j: implies(ghost_inE[%s][j], P0 <= j < %s and 0 <= ghost_posE[%s][j] < len(%s) and "
+        "%s[ghost_posE[%s][j]] == j), trigger=lambda j: ghost_inE[%s][j])" % (L, K, L, E, E, L, L),
+        # seen keys <-> first position with that key, which was written
+        "implies(%s, forall(lambda key: implies(key in seen_level_entities[%s], "
+        "ghost_inE[%s][ghost_first[%s][key]] and %s == key), types={'key': 'str'}, "
+        "trigger=lambda key: key in seen_level_entities[%s]))"
+        % (DD(L), L, L, L, KEY(L, "ghost_first[%s][key]" % L), L),
+        # a written row is the first with its key (hence no two written rows share a key)
+        "implies(%s, forall(lambda j: implies(ghost_inE[%s][j], %s in seen_level_entities[%s] and "
+        "ghost_first[%s][%s] == j), trigger=lambda j: ghost_inE[%s][j]))"
+        % (DD(L), L, KEY(L, "j"), L, L, KEY(L, "j"), L),
+        # every candidate row is represented by a written row with the same key, not later in the stream
+        "implies(%s, forall(lambda j: implies(P0 <= j < %s and %s, %s in seen_level_entities[%s] and "
+        "ghost_first[%s][%s] <= j), trigger=lambda j: %s[j]))"
+        % (DD(L), K, CAND(L, "j"), KEY(L, "j"), L, L, KEY(L, "j"), R),
+        # higher levels hold retained PSMs only
+        "forall(lambda j: implies(ghost_inE[%s][j], %s), trigger=lambda j: ghost_inE[%s][j])" % (L, CAND(L, "j"), L),
+        # de-duplication off: every row is written at the PSM level
+        "implies(not %s, forall(lambda j: implies(P0 <= j < %s, ghost_inE[%s][j]), "
+        "trigger=lambda j: ghost_inE[%s][j]))" % (DD(L), K, L, L),
+    ]
+    if sink_complete is not None:
+        out.append("implies(%s, len(batches[%s]) == 0 or len(%s) == len(%s))" % (sink_complete, L, S, E))
+    return out
+
+
+def for_levels(facts):
+    return ["all(%s for li in range(len(levels)))" % f for f in facts]
+
+
+SHAPE = [
+    "keys(batches) == levels",
+    "P0 <= %s <= len(%s)" % (KK, R),
+]
+
+_ASSUMES = [
+    # the level list: "psms" first (proved by the #levels block below), no duplicates (assumption, see above)
+    "len(levels) >= 1 and levels[0] == 'psms'",
+    "forall(lambda a, b: implies(0 <= a < b < len(levels), levels[a] != levels[b]), "
+    "trigger=lambda a, b: (levels[a], levels[b]))",
+    "all(levels[li] in handles and levels[li] in level_hash_columns for li in range(len(levels)))",
+    # one writer object per level, nothing written yet beyond what the ghost sink holds (arbitrary old content is
+    # allowed: the log starts empty and the contract speaks about what is ADDED, so require empty for simplicity)
+    "forall(lambda a, b: implies(0 <= a < b < len(levels), handles[levels[a]] != handles[levels[b]]), "
+    "trigger=lambda a, b: (handles[levels[a]], handles[levels[b]]))",
+    "all(len(ghost_sink[handles[levels[li]]]) == 0 for li in range(len(levels)))",
+    # ghost log starts empty
+    "forall(lambda L: len(ghost_em[L]) == 0, types={'L': 'str'}, trigger=lambda L: ghost_em[L])",
+    "forall(lambda L, j: not ghost_inE[L][j], types={'L': 'str'}, trigger=lambda L, j: ghost_inE[L][j])",
+    "CONFIDENCE_CHUNK_SIZE >= 1",
+]
+
+HKG = Ghost("HK", "Row, list[str] -> str", axioms=[
+    "forall(lambda data_row, cols: HK(data_row, cols) == str([data_row.get(col) for col in cols]), "
+    "types={'data_row': 'Row', 'cols': 'list[str]'}, trigger=lambda data_row, cols: HK(data_row, cols))"])
+
+_INNER_K = "(P0 + _k0 + (1 if li < _k1 else 0))"
+
+dedup = Contract(
+    target="mokapot.confidence.assign_confidence#dedup",
+    block={"inside": ["for _psms, score, desc, prefix in zip(", "with create_sorted_file_iterator("],
+           "start": "seen_level_entities = {", "end": "for level, batch in batches.items()"},
+    free={"levels": "list[str]", "level_hash_columns": "dict[str,list[str]]",
+          "sorted_file_iterator": "iter[Row]", "deduplication": "bool", "handles": "dict[str,Writer]",
+          "in_metadata_columns": "list[str]", "input_output_column_mapping": "dict[str,str]",
+          "_psms.target_column": "str",
+          "ghost_sink": "map[Writer,list[Row]]", "ghost_em": "map[str,list[int]]",
+          "ghost_inE": "map[str,map[int,bool]]", "ghost_posE": "map[str,map[int,int]]",
+          "ghost_first": "map[str,map[str,int]]"},
+    consts={"CONFIDENCE_CHUNK_SIZE": ("int", None)},
+    locals={"seen_level_entities": "dict[str,set[str]]", "batches": "dict[str,list[Row]]",
+            "batch_counts": "dict[str,int]", "psm_hash": "str", "df": "list[Row]", "psm_count": "int"},
+    ghosts=[HKG],
+    entry_ghost=["let P0 = sorted_file_iterator.pos"],
+    assumes=_ASSUMES,
+    ghost_at=[
+        {"after": "psm_hash = str(", "do": ["assert psm_hash == HK(data_row, level_hash_columns[level])"]},
+        {"after": "seen_level_entities[level].add(psm_hash)", "do": ["set ghost_first[level][psm_hash] = %s" % KK]},
+        {"before": "batches[level].append(data_row)", "do": [
+            "set ghost_posE[level][%s] = len(ghost_em[level])" % KK,
+            "set ghost_em[level] = ghost_em[level] + [%s]" % KK,
+            "set ghost_inE[level][%s] = True" % KK,
+        ]},
+    ],
+    loops={
+        0: Loop(invariant=SHAPE + for_levels(level_facts(KK))),
+        1: Loop(invariant=SHAPE[:1] + ["P0 <= %s < len(%s)" % (KK, R), "data_row == %s[%s]" % (R, KK),
+                                       "implies(_k1 > 0, ghost_inE['psms'][%s])" % KK]
+                + for_levels(level_facts(_INNER_K))),
+        2: Loop(invariant=SHAPE[:1] + for_levels(level_facts("len(%s)" % R, sink_complete="li < _k2"))),
+    },
+    ensures=[
+        # the whole stream was consumed and every level's writer holds exactly the logged rows, in stream order
+        "all(len(ghost_sink[handles[levels[li]]]) == len(ghost_em[levels[li]]) for li in range(len(levels)))",
+    ] + for_levels(level_facts("len(%s)" % R)[2:3] + level_facts("len(%s)" % R)[4:]),
+    uses=["mokapot.utils.get_dataframe_from_records"],
+)
+
+records = Contract(
+    target="mokapot.utils.get_dataframe_from_records",
+    params={"records": "list[Row]", "in_columns": "list[str]", "column_mapping": "dict[str,str]",
+            "target_column": "opt[str]"},
+    returns="list[Row]",
+    ensures=["result == records"],
+    skip_body=True,
+    notes="assumed: pandas DataFrame.from_records + rename; one frame row per record, in order",
+)
+
+CONTRACTS = [records, dedup]
 BOUNDED = {"module": "harness.c03"}
